@@ -507,7 +507,7 @@ def expand(path, env=None, cap=1500, keep=()):
         if isinstance(st, ast.Assign):
             for t in st.targets:
                 if isinstance(t, ast.Name):
-                    if _size(new.value) <= cap and t.id not in keep and (t.id not in mutated or is_access_path(new.value)):
+                    if _size(new.value) <= cap and t.id not in keep and (t.id not in mutated or is_access_path(st.value)):
                         env[t.id] = new.value
                     else:
                         env.pop(t.id, None)
@@ -612,7 +612,7 @@ def dominating_env(fn, stmt, cap=1500, keep=(), deep=True):
             elif isinstance(st, ast.Assign) and all(isinstance(t, ast.Name) for t in st.targets):
                 val = subst(st.value, env) if deep else st.value
                 for t in st.targets:
-                    if _size(val) <= cap and t.id not in keep and (t.id not in mutated or is_access_path(val)):
+                    if _size(val) <= cap and t.id not in keep and (t.id not in mutated or is_access_path(st.value)):
                         env[t.id] = val
                     else:
                         env.pop(t.id, None)
